@@ -177,6 +177,21 @@ func cmdAPI(in, out string) error {
 			case <-time.After(10 * time.Second):
 				res.Err = "timeout"
 			}
+		case "split":
+			chs, err := patch.VerifSplit(r.Name, []byte(r.Patch))
+			if err != nil {
+				res.Err = err.Error()
+			}
+			b, _ := json.Marshal(chs)
+			res.Out = string(b)
+		case "alpha":
+			f, err := parser.ParseFile(token.NewFileSet(), "x.go", r.Src, parser.ParseComments)
+			if err != nil {
+				res.Err = err.Error()
+			} else {
+				b, _ := json.Marshal(AlphaWith(f, AlphaOpts{KeepImports: true}))
+				res.Out = string(b)
+			}
 		case "parses":
 			if _, err := parser.ParseFile(token.NewFileSet(), "x.go", r.Src, parser.ParseComments); err != nil {
 				res.Err = err.Error()
